@@ -6,7 +6,7 @@
 N=$1; P=$2; shift 2
 W=/tmp/seedwt/$N
 rm -rf "$W" "$W.out"; mkdir -p /tmp/seedwt "$W.out"
-git -C /repo worktree add -q --detach "$W" HEAD || exit 3
+git -C /repo worktree prune; git -C /repo worktree add -q --detach "$W" HEAD || exit 3
 ( cd "$W" && git apply "$P" ) || { echo "PATCH DOES NOT APPLY: $P"; git -C /repo worktree remove --force "$W"; exit 3; }
 for p in "$@"; do
   cd /verif && VERIF_REPO="$W" VERIF_BUILD_DIR="$W.out/build" VERIF_REPLAY_DIR="$W.out/replays" VERIF_EVIDENCE_DIR="$W.out/evidence" \
